@@ -113,6 +113,32 @@ func c10RecvLoop(c *Ctx, a *clientAnchors) {
 	mkI := freshBufferSite(bufArg)
 	r.Check(mkI != nil && loop[mkI.Block()], "C10-K7", key("read buffer allocated inside loop"), c.P.ipos(read), "MakeSlice on the loop cycle",
 		"the receive buffer is not allocated per datagram: a decoded message handed to a caller could be overwritten by the next read")
+	// the buffer holds a full-size datagram: its constant length is at least 1500 (an Ethernet-MTU reply; the
+	// DHCPv4 client announces exactly that in option 57), so no well-formed reply is truncated and dropped
+	if mkI != nil {
+		size := int64(-1)
+		switch x := mkI.(type) {
+		case *ssa.MakeSlice:
+			if k, ok := intConst(x.Len); ok {
+				size = k
+			}
+		case *ssa.Alloc:
+			if arr, ok := x.Type().(*types.Pointer).Elem().Underlying().(*types.Array); ok {
+				size = arr.Len()
+				if sl, ok := bufArg.(*ssa.Slice); ok && sl.High != nil {
+					if k, ok := intConst(sl.High); ok {
+						size = k
+					}
+				}
+			}
+		}
+		if size < 0 {
+			r.Undecided("C10-K7", key("read buffer has a constant size"), c.P.ipos(read), "the length of the receive buffer is not a constant")
+		} else {
+			r.Check(size >= minReceiveBuffer, "C10-K7", key(fmt.Sprintf("read buffer holds a full-size datagram (>= %d bytes)", minReceiveBuffer)), c.P.ipos(read), fmt.Sprintf("constant length %d", size),
+				fmt.Sprintf("the receive buffer is %d bytes: a well-formed reply of up to %d bytes (what a 1500-byte MTU carries and what the v4 client announces in option 57) is truncated by ReadFrom, fails to decode and is dropped", size, minReceiveBuffer))
+		}
+	}
 	n := extractOf(read, 0)
 	if n != nil {
 		want := "slice(" + sx.Of(bufArg).String() + ",const(_)," + sx.Of(n).String() + ",const(_))"
@@ -781,6 +807,9 @@ func c10Confinement(c *Ctx, a *clientAnchors) {
 
 // freshBufferSite: the allocation instruction behind a buffer value (make([]byte,n) with a
 // dynamic or a constant size), or nil.
+// minReceiveBuffer: MaxMessageSize of nclient4 (announced in option 57) and the literal used by nclient6
+const minReceiveBuffer = 1500
+
 func freshBufferSite(v ssa.Value) ssa.Instruction {
 	switch x := v.(type) {
 	case *ssa.MakeSlice:
